@@ -13,6 +13,8 @@ MaxLen     == 3
 Input      == <<>>
 FirstSyms  == Alphabet
 AllowEmpty == TRUE
+(* encoder (EncodeCall): strict flag; Alphabet then holds SMILES token texts *)
+Strict == TRUE
 (* text mode (DecodeText) *)
 RawChars == {"[", "]", ".", "C"}
 RawLen   == 4
